@@ -914,6 +914,7 @@ func streamURL(g *G) { // C10
 }
 
 var corsOrigins = [][]string{nil, {"https://a.example"}, {"https://a.example", "https://b.example"}, {"*"}, {"https://a.example", "*"},
+	{"https://b.example", "https://a.example", "https://b.example"}, // a duplicate, unsorted
 	{"https://a.example", "https://b.example", "https://c.example", "https://d.example", "https://e.example", "https://f.example", "https://g.example", "https://h.example", "https://i.example", "https://j.example"}}
 var corsAllowH = [][]string{nil, {"Content-Type"}, {"Content-Type", "X-Token"}, {"*"}, {"x-lower"}, {"Content-Type", "X-UID", "X-Ua"}, {"authorization", "X-Token", "Accept"}, {"X-b", "X-B1", "x-a", "X-C"}, {"Zeta", "alpha", "Beta", "gamma", "Delta"}}
 var corsExposed = [][]string{nil, {"X-A"}, {"X-A", "X-B"}, {"*"}, {"X-Total-Count", "*", "ETag"}, {"*", "X-A"}, {"x-lower", "X-UPPER"}}
@@ -1511,7 +1512,7 @@ func streamFacade(g *G) { // C19: the same program through façades (router A) a
 	rid := 1
 	for !g.full() {
 		useIc := g.chance(0.3)
-		o := routerOpt{name: "fa"}
+		o := routerOpt{name: "fa", domain: g.pick([]string{"", "", "https://example.com", "https://example.com/"})}
 		if useIc {
 			o.icpt = icptTable
 		}
@@ -1634,6 +1635,9 @@ func streamFacade(g *G) { // C19: the same program through façades (router A) a
 					sub = ""
 				}
 				ps := g.paramsFor(f.pattern + sub)
+				if g.chance(0.25) {
+					ps = "%-" // nothing to fill in: the pattern itself, still behind the router's URL domain
+				}
 				strict := b2s(g.chance(0.5))
 				both(fmt.Sprintf("furl %d %s %s %s", f.id, strict, encB(sub), ps), fmt.Sprintf("url %d %s %s %s", b, strict, encB(f.pattern+sub), ps))
 			}
